@@ -266,6 +266,12 @@ impl<C: ServerContext> HttpServerStarter<C> {
             builder.http1().timer(TokioTimer::new());
             // http/2 settings
             builder.http2().timer(TokioTimer::new());
+            // Under simulation hyper's timeouts must follow the virtual clock.
+            #[cfg(dropshot_verif)]
+            {
+                builder.http1().timer(crate::verif_net::SimTimer::new());
+                builder.http2().timer(crate::verif_net::SimTimer::new());
+            }
 
             // Use a graceful watcher to keep track of all existing connections,
             // and when the close_signal is trigger, force all known conns
